@@ -204,12 +204,24 @@ class RemoveUnusedVariables(VisitorBasedCodemodCommand, NameResolutionMixin):
             #        return node.with_changes(elements = new_elements)
             #    return None
             case cst.Name():
-                if self.find_accesses(node):
+                if self._is_referenced(node):
                     return node
                 else:
                     return None
             case _:
                 return node
+
+    def _is_referenced(self, node: cst.Name) -> bool:
+        """
+        Is the name read anywhere? The accesses of a scope only hold the reads made in that very
+        scope: nested functions, lambdas and comprehensions that use the name are references of
+        its assignments.
+        """
+        if self.find_accesses(node):
+            return True
+        if scope := self.get_metadata(ScopeProvider, node, None):
+            return any(assignment.references for assignment in scope.assignments[node])
+        return False
 
     def leave_Assign(
         self, original_node: cst.Assign, updated_node: cst.Assign
